@@ -124,21 +124,43 @@ static void yield_point(const char*) {}
 #endif
 
 //=== instrumented stateful RawAllocator (composable: has try_*) ===//
-struct ialloc
+// Two flavours with identical instrumentation:
+//   ialloc: carries a pointer to its state (an ordinary stateful allocator)
+//   ealloc: EMPTY class that declares is_stateful = true_type; its state is global (like an allocator forwarding
+//           to a global pool). allocator_traits honours the typedef, so the wrapper must lock for it as well.
+struct ptr_state
+{
+    obs* o;
+    explicit ptr_state(obs* s) noexcept : o(s) {}
+    obs& state() const noexcept
+    {
+        return *o;
+    }
+};
+struct global_state
+{
+    obs& state() const noexcept
+    {
+        return *G;
+    }
+};
+
+template <class State>
+struct iallocT : State
 {
     using is_stateful = std::true_type;
-    obs* o;
-    explicit ialloc(obs* s) noexcept : o(s) {}
-    ialloc(ialloc&& other) noexcept : o(other.o) {}
-    ialloc& operator=(ialloc&& other) noexcept
+    iallocT() noexcept = default;
+    explicit iallocT(obs* s) noexcept : State(s) {}
+    iallocT(iallocT&& other) noexcept : State(static_cast<State&&>(other)) {}
+    iallocT& operator=(iallocT&& other) noexcept
     {
-        o = other.o;
+        State::operator=(static_cast<State&&>(other));
         return *this;
     }
 
     long enter(int member) const
     {
-        obs& s = *o;
+        obs& s = this->state();
 #ifndef TSAFE_TSAN
         ++s.entries;
         ++s.entries_by[member];
@@ -220,6 +242,12 @@ struct ialloc
         return 16;
     }
 };
+using ialloc = iallocT<ptr_state>;
+using ealloc = iallocT<global_state>;
+static_assert(std::is_empty<ealloc>::value && fm::allocator_traits<ealloc>::is_stateful::value,
+              "ealloc must be an empty class that is nevertheless stateful");
+static_assert(fm::is_composable_allocator<ealloc>::value, "");
+
 
 //=== stateless RawAllocator: nothing to protect; counts entries in the execution's obs ===//
 struct salloc
@@ -312,6 +340,11 @@ template <>
 salloc make_alloc<salloc>(obs*)
 {
     return salloc();
+}
+template <>
+ealloc make_alloc<ealloc>(obs*)
+{
+    return ealloc();
 }
 
 template <class A>
@@ -651,13 +684,16 @@ struct run_cfg
 
 static pworld_base* make_world(const run_cfg& c, const program& p)
 {
-    bool sl = c.alloc == "stateless";
+    int k = c.alloc == "stateless" ? 1 : c.alloc == "empty" ? 2 : 0;
     if (c.storage == "direct")
-        return sl ? (pworld_base*)new pworld<direct_holder<salloc>>(p) : new pworld<direct_holder<ialloc>>(p);
+        return k == 1 ? (pworld_base*)new pworld<direct_holder<salloc>>(p)
+                      : k == 2 ? (pworld_base*)new pworld<direct_holder<ealloc>>(p) : new pworld<direct_holder<ialloc>>(p);
     if (c.storage == "ref")
-        return sl ? (pworld_base*)new pworld<ref_holder<salloc>>(p) : new pworld<ref_holder<ialloc>>(p);
+        return k == 1 ? (pworld_base*)new pworld<ref_holder<salloc>>(p)
+                      : k == 2 ? (pworld_base*)new pworld<ref_holder<ealloc>>(p) : new pworld<ref_holder<ialloc>>(p);
     if (c.storage == "any")
-        return sl ? (pworld_base*)new pworld<any_holder<salloc>>(p) : new pworld<any_holder<ialloc>>(p);
+        return k == 1 ? (pworld_base*)new pworld<any_holder<salloc>>(p)
+                      : k == 2 ? (pworld_base*)new pworld<any_holder<ealloc>>(p) : new pworld<any_holder<ialloc>>(p);
     std::fprintf(stderr, "unknown storage %s\n", c.storage.c_str());
     std::exit(2);
 }
@@ -667,7 +703,7 @@ static void judge(const run_cfg& c, pworld_base& w, const sched::run_result& r, 
                   std::vector<std::string>& herr)
 {
     obs& o        = w.o;
-    bool stateful = c.alloc == "stateful";
+    bool stateful = c.alloc != "stateless"; // "stateful" and "empty" (empty class, is_stateful = true_type)
     if (r.diverged)
         herr.push_back("schedule diverged on replay");
     if (r.horizon)
@@ -687,13 +723,16 @@ static void judge(const run_cfg& c, pworld_base& w, const sched::run_result& r, 
     }
     if (stateful)
     {
-        if (o.mutexes.size() != 1)
+        if (o.mutexes.size() > 1)
             herr.push_back(fmt("expected exactly one instrumented mutex in the allocator_storage object, found %zu",
                                o.mutexes.size()));
         if (o.nolock)
             v.push_back({"no-lock", fmt("%ld entr%s into the wrapped allocator while the mutex was not held by the calling "
-                                        "thread (first: %s)",
-                                        o.nolock, o.nolock == 1 ? "y" : "ies", OP_NAME[o.first_nolock])});
+                                        "thread (first: %s)%s",
+                                        o.nolock, o.nolock == 1 ? "y" : "ies", OP_NAME[o.first_nolock],
+                                        o.mutexes.empty() ? "; the allocator_storage object embeds no Mutex at all although the "
+                                                            "allocator is stateful (is_stateful = true_type)"
+                                                          : "")});
         if (o.overlap)
             v.push_back({"overlap", fmt("two threads were inside the wrapped allocator at once (%ld times, first in %s)",
                                         o.overlap, OP_NAME[o.first_overlap])});
@@ -833,6 +872,345 @@ static int replay_case(const std::string& js)
     std::_Exit(v.empty() ? (herr.empty() ? 0 : 3) : 1);
 }
 
+//=====================================================================================================
+// "stateless allocators ... are safe to use concurrently as they are": the only shared state of the
+// stateless low-level allocators is the global leak balance global_leak_checker_impl<...>::allocated_.
+// Built with -DTSAFE_LL the harness is linked with src/{heap,malloc,new}_allocator.cpp and
+// src/virtual_memory.cpp compiled from the working tree with engine/atomic_shim.hpp force-included (in front
+// of libfm.a): every std::atomic operation of those TUs calls verif_atomic_point() first, which is a
+// scheduling point here. All schedules of small programs of allocate_node;deallocate_node pairs are
+// enumerated; after every schedule the balance must be back where it started.
+//=====================================================================================================
+extern "C" void verif_atomic_point(const char* what, const void*, int)
+{
+    if (sched::in_execution())
+        sched::point(what);
+}
+
+#if defined(TSAFE_LL) && FOONATHAN_MEMORY_DEBUG_LEAK_CHECK
+#include <foonathan/memory/heap_allocator.hpp>
+#include <foonathan/memory/malloc_allocator.hpp>
+#include <foonathan/memory/new_allocator.hpp>
+#include <foonathan/memory/virtual_memory.hpp>
+
+template <class A, class Handler>
+struct ll_kind
+{
+    using alloc   = A;
+    using checker = fm::detail::global_leak_checker_impl<Handler>;
+    static std::ptrdiff_t balance()
+    {
+        return checker::allocated_.load();
+    }
+};
+using ll_heap   = ll_kind<fm::heap_allocator, fm::detail::lowlevel_allocator_leak_handler<fm::detail::heap_allocator_impl>>;
+using ll_malloc = ll_kind<fm::malloc_allocator, fm::detail::lowlevel_allocator_leak_handler<fm::detail::malloc_allocator_impl>>;
+using ll_new    = ll_kind<fm::new_allocator, fm::detail::lowlevel_allocator_leak_handler<fm::detail::new_allocator_impl>>;
+using ll_virt   = ll_kind<fm::virtual_memory_allocator, fm::detail::virtual_memory_allocator_leak_handler>;
+static_assert(!fm::allocator_traits<fm::heap_allocator>::is_stateful::value
+                  && !fm::allocator_traits<fm::virtual_memory_allocator>::is_stateful::value,
+              "low-level allocators are stateless");
+
+struct ll_world_base : pworld_base
+{
+    std::ptrdiff_t start = 0;
+    long           atomic_points = 0;
+    virtual std::ptrdiff_t balance() = 0;
+};
+// op 0: own allocator object (they are all the same stateless thing); op 1: through ONE shared thread_safe_allocator
+template <class K>
+struct ll_world : ll_world_base
+{
+    std::unique_ptr<fm::thread_safe_allocator<typename K::alloc, imutex>> shared;
+    explicit ll_world(const program& p)
+    {
+        prog = p;
+        G    = &o;
+        shared.reset(new fm::thread_safe_allocator<typename K::alloc, imutex>(typename K::alloc()));
+        start = K::balance();
+    }
+    std::ptrdiff_t balance() override
+    {
+        return K::balance();
+    }
+    sched::u64 state_hash() override
+    {
+        return sched::u64(K::balance() - start) * 1000003u;
+    }
+    void run_thread(int id) override
+    {
+        for (int op : prog[std::size_t(id)])
+        {
+            if (op == 0)
+            {
+                typename K::alloc a;
+                void*             n = a.allocate_node(64, 8);
+                a.deallocate_node(n, 64, 8);
+            }
+            else
+            {
+                void* n = shared->allocate_node(64, 8);
+                shared->deallocate_node(n, 64, 8);
+            }
+        }
+    }
+};
+static const char* const LL_KINDS[] = {"heap_allocator", "malloc_allocator", "new_allocator", "virtual_memory_allocator"};
+static ll_world_base* make_ll(const std::string& kind, const program& p)
+{
+    if (kind == LL_KINDS[0])
+        return new ll_world<ll_heap>(p);
+    if (kind == LL_KINDS[1])
+        return new ll_world<ll_malloc>(p);
+    if (kind == LL_KINDS[2])
+        return new ll_world<ll_new>(p);
+    return new ll_world<ll_virt>(p);
+}
+static std::string ll_prog_names(const program& p)
+{
+    jarr a;
+    for (auto& t : p)
+    {
+        jarr b;
+        for (int o : t)
+            b.str(o ? "shared thread_safe_allocator: allocate_node;deallocate_node" : "own object: allocate_node;deallocate_node");
+        a.raw(b.done());
+    }
+    return a.done();
+}
+static void judge_ll(const std::string& kind, ll_world_base& w, const sched::run_result& r, std::vector<violation>& v,
+                     std::vector<std::string>& herr)
+{
+    if (r.diverged)
+        herr.push_back("schedule diverged on replay");
+    if (r.horizon)
+        herr.push_back("horizon reached");
+    if (r.threw)
+        v.push_back({"exception", "an exception escaped a thread body"});
+    if (w.o.aborted)
+        v.push_back({"abort", "the library called abort()"});
+    if (r.deadlock)
+        v.push_back({"deadlock", "no enabled thread"});
+    if (w.o.lock_calls || !w.o.mutexes.empty())
+        v.push_back({"stateless-locked", fmt("%s is stateless: %ld lock calls, %zu mutex objects (must be 0 / 0)", kind.c_str(),
+                                             w.o.lock_calls, w.o.mutexes.size())});
+    if (r.complete && !w.o.aborted)
+    {
+        std::ptrdiff_t d = w.balance() - w.start;
+        if (d != 0)
+            v.push_back({"leak-balance", fmt("every node was returned, yet the shared leak balance of %s moved by %td bytes (an update "
+                                             "of the global counter was lost): used concurrently without a lock it is not safe as it is",
+                                             kind.c_str(), d)});
+    }
+}
+static std::string ll_case_json(const std::string& kind, const program& p, const std::vector<sched::u8>& sch)
+{
+    jarr s;
+    for (auto x : sch)
+        s.raw(std::to_string(int(x)));
+    return jobj().boolean("ll", true).str("kind", kind).raw("prog", prog_json(p, false)).raw("calls", ll_prog_names(p)).raw("schedule", s.done()).done();
+}
+static std::vector<program> ll_programs()
+{
+    std::vector<program> r;
+    for (int a = 0; a < 2; ++a)
+        for (int b = a; b < 2; ++b)
+            r.push_back({{a}, {b}});
+    for (int a = 0; a < 2; ++a)
+        for (int b = 0; b < 2; ++b)
+            r.push_back({{a, b}, {b, a}});
+    for (int a = 0; a < 2; ++a)
+        for (int b = a; b < 2; ++b)
+            for (int c = b; c < 2; ++c)
+                r.push_back({{a}, {b}, {c}});
+    return r;
+}
+
+// explores all schedules of (kind, p); returns the first violating complete schedule (if any) in `found`
+template <class OnExec>
+static sched::explore_stats ll_explore(const std::string& kind, const program& p, int bound, OnExec on)
+{
+    sched::explore_options eo;
+    eo.max_preemptions = bound;
+    eo.max_steps       = 400;
+    eo.deadline        = now_s() + 600;
+    return sched::explore(
+        eo, [&] { return static_cast<sched::world*>(make_ll(kind, p)); },
+        [&](sched::world& w0, const sched::run_result& r, const sched::item&) { return on(static_cast<ll_world_base&>(w0), r); });
+}
+
+static int ll_replay(const std::string& js)
+{
+    std::string kind = json_str(js, "kind", LL_KINDS[0]);
+    program     p    = json_ints(js, "prog");
+    auto        s    = json_ints(js, "schedule");
+    std::vector<sched::u8> prefix;
+    if (!s.empty())
+        for (int x : s[0])
+            prefix.push_back(sched::u8(x));
+    std::printf("%s, program=%s\n", kind.c_str(), ll_prog_names(p).c_str());
+    auto w = make_ll(kind, p);
+    auto r = sched::run(*w, prefix);
+    if (r.diverged)
+    {
+        std::printf("the recorded schedule is not feasible on this tree; enumerating all schedules of the program instead\n");
+        bool                   have = false;
+        std::vector<sched::u8> found;
+        auto st = ll_explore(kind, p, 1000, [&](ll_world_base& w1, const sched::run_result& r1) {
+            std::vector<violation>   v1;
+            std::vector<std::string> h1;
+            judge_ll(kind, w1, r1, v1, h1);
+            if (v1.empty() && h1.empty())
+                return true;
+            have  = true;
+            found = sched::choices_of(r1);
+            return false;
+        });
+        std::printf("%llu schedules executed%s\n", (unsigned long long)st.executions, have ? ", one violates:" : ", none violates");
+        if (!have)
+        {
+            std::fflush(stdout);
+            std::_Exit(st.finished ? 0 : 3);
+        }
+        w = make_ll(kind, p);
+        r = sched::run(*w, found);
+    }
+    std::vector<violation>   v;
+    std::vector<std::string> herr;
+    judge_ll(kind, *w, r, v, herr);
+    std::printf("schedule: %s\nleak balance: %td at the start, %td at the end\n", sched::format_schedule(r).c_str(), w->start, w->balance());
+    for (auto& e : herr)
+        std::printf("HARNESS ERROR: %s\n", e.c_str());
+    for (auto& x : v)
+        std::printf("VIOLATED [%s] %s\n", x.tag.c_str(), x.detail.c_str());
+    if (v.empty())
+        std::printf("no violation\n");
+    std::fflush(stdout);
+    std::_Exit(v.empty() ? (herr.empty() ? 0 : 3) : 1);
+}
+
+static int ll_main(const argmap& a)
+{
+    double                   t0 = now_s();
+    sched::pin_to_free_cpu();
+    sched::u64               executions = 0, transitions = 0, states = 0, nprogs = 0, all_sched = 0, atomic_steps = 0;
+    std::vector<sched::u64>  by_pre;
+    std::vector<std::string> herr_list;
+    std::set<std::string>    classes;
+    std::map<std::string, int> viol_count;
+    jarr                     samples, viols;
+    auto                     progs = ll_programs();
+    for (const char* kind : LL_KINDS)
+        for (std::size_t pi = 0; pi < progs.size(); ++pi)
+        {
+            const program& p = progs[pi];
+            ++nprogs;
+            bool sampled = false;
+            auto st      = ll_explore(kind, p, 1000, [&](ll_world_base& w, const sched::run_result& r) {
+                std::vector<violation>   v;
+                std::vector<std::string> herr;
+                judge_ll(kind, w, r, v, herr);
+                for (auto& s : r.trace)
+                    if (std::strncmp(s.tag, "atomic.", 7) == 0)
+                        ++atomic_steps;
+                classes.insert(fmt("%s|%zu|%d", kind, pi, r.preemptions));
+                if (!sampled && pi == 4 && r.preemptions == 2)
+                {
+                    sampled = true;
+                    samples.raw(jobj().str("allocator", kind).raw("program", ll_prog_names(p)).str("schedule", sched::format_schedule(r)).num("leak_balance_change", (long long)(w.balance() - w.start)).done());
+                }
+                for (auto& e : herr)
+                    if (herr_list.size() < 20)
+                        herr_list.push_back(std::string(kind) + ": " + e);
+                if (v.empty())
+                    return herr.empty();
+                auto                     sch = sched::choices_of(r);
+                auto                     w2  = make_ll(kind, p);
+                auto                     r2  = sched::run(*w2, sch);
+                std::vector<violation>   v2;
+                std::vector<std::string> herr2;
+                judge_ll(kind, *w2, r2, v2, herr2);
+                if (tags_of(v) != tags_of(v2))
+                    herr_list.push_back(std::string(kind) + ": violation not reproducible: '" + tags_of(v) + "' vs '" + tags_of(v2) + "'");
+                else
+                    for (auto& x : v)
+                        if (viol_count[x.tag]++ < 2)
+                            viols.raw(jobj()
+                                          .str("tag", x.tag)
+                                          .str("detail", x.detail + " | program " + ll_prog_names(p) + " | schedule " + sched::format_schedule(r))
+                                          .raw("input", ll_case_json(kind, p, sch))
+                                          .done());
+                if (r2.clean)
+                    delete w2;
+                return false;
+            });
+            executions += st.executions;
+            transitions += st.transitions;
+            states += st.states;
+            if (st.all_schedules)
+                ++all_sched;
+            if (by_pre.size() < st.by_preemptions.size())
+                by_pre.resize(st.by_preemptions.size());
+            for (std::size_t i = 0; i < st.by_preemptions.size(); ++i)
+                by_pre[i] += st.by_preemptions[i];
+            if (st.divergences)
+                herr_list.push_back(std::string(kind) + ": " + st.stop_reason);
+        }
+    if (atomic_steps == 0)
+        herr_list.push_back("vacuous: no scheduling point came from an atomic operation of the low-level allocators (shim not effective)");
+    while (!by_pre.empty() && by_pre.back() == 0)
+        by_pre.pop_back();
+    jarr bp, he;
+    for (auto x : by_pre)
+        bp.raw(std::to_string(x));
+    for (auto& e : herr_list)
+        he.str(e);
+    jobj vc;
+    for (auto& kv : viol_count)
+        vc.num(kv.first, kv.second);
+    bool any_viol = !viol_count.empty();
+    jobj extra;
+    extra.num("states", (long long)states)
+        .num("transitions", (long long)transitions)
+        .num("traces_validated_against_impl", (long long)executions)
+        .num("programs", (long long)nprogs)
+        .num("programs_with_all_schedules_enumerated", (long long)all_sched)
+        .num("alternatives_pruned_by_bound", 0)
+        .num("preemption_bound", -1)
+        .num("preemption_bound_completed", -1)
+        .boolean("no_bound_needed", all_sched == nprogs)
+        .raw("executions_by_preemptions", bp.done())
+        .num("executions_with_contended_mutex", 0)
+        .num("decisions_at_atomic_operations", (long long)atomic_steps)
+        .raw("allocator_entries_by_member", "{}")
+        .raw("violating_programs_by_tag", vc.done())
+        .dbl("executions_per_s", double(executions) / (now_s() - t0 + 1e-9))
+        .str("storage", "own object / thread_safe_allocator")
+        .str("alloc", "lowlevel")
+        .str("shape", "ll");
+    jobj out;
+    out.num("evaluations", (long long)executions)
+        .num("distinct_nontrivial", (long long)classes.size())
+        .str("rule", "one evaluation = one complete schedule of 2-3 threads x 1-2 (allocate_node; deallocate_node) pairs on "
+                     "heap/malloc/new/virtual_memory allocator (own objects and one shared thread_safe_allocator), scheduling point "
+                     "before every atomic operation of the library's low-level allocator TUs; all schedules, no bound; class = "
+                     "(allocator, program, preemptions)")
+        .raw("samples", samples.done())
+        .boolean("exhaustive", (all_sched == nprogs || any_viol) && herr_list.empty())
+        .num("excluded", 0)
+        .dbl("wall_s", now_s() - t0)
+        .raw("violations", viols.done())
+        .raw("harness_errors", he.done())
+        .raw("extra", extra.done());
+    FILE* f = std::fopen(a.s("out", "/dev/stdout").c_str(), "w");
+    std::fputs((out.done() + "\n").c_str(), f);
+    std::fclose(f);
+    std::fflush(nullptr);
+    std::_Exit(0);
+}
+#define TSAFE_HAVE_LL 1
+#endif
+
 // --selftest: the machinery must find what it claims to find (on programs outside the property's contract)
 static int selftest(const argmap& a)
 {
@@ -921,6 +1299,18 @@ static int selftest(const argmap& a)
 int main(int argc, char** argv)
 {
     argmap a(argc, argv);
+#ifdef TSAFE_HAVE_LL
+    if (a.has("replay") && a.s("replay").find("\"ll\"") != std::string::npos)
+        return ll_replay(a.s("replay"));
+    if (a.has("ll"))
+        return ll_main(a);
+#else
+    if (a.has("ll") || (a.has("replay") && a.s("replay").find("\"ll\"") != std::string::npos))
+    {
+        std::fprintf(stderr, "this build has no low-level allocator part (needs -DTSAFE_LL and a configuration with leak checking)\n");
+        return 2;
+    }
+#endif
     if (a.has("replay"))
         return replay_case(a.s("replay"));
     if (a.has("selftest"))
@@ -1154,6 +1544,7 @@ static long free_run(const program& p, long iters, long& bad_state)
     for (long it = 0; it < iters; ++it)
     {
         obs    o;
+        G = &o; // state of the empty-but-stateful allocator
         Holder h(&o);
         std::vector<std::thread>        th;
         std::vector<std::vector<void*>> ret(p.size());
@@ -1181,6 +1572,8 @@ static long free_run_storage(const std::string& storage, const program& p, long 
         return free_run<direct_holder<ialloc>>(p, iters, bad);
     if (storage == "ref")
         return free_run<ref_holder<ialloc>>(p, iters, bad);
+    if (storage == "direct-empty")
+        return free_run<direct_holder<ealloc>>(p, iters, bad);
     return free_run<any_holder<ialloc>>(p, iters, bad);
 }
 
@@ -1300,7 +1693,7 @@ int main(int argc, char** argv)
                           .raw("input", jobj().str("storage", storage).str("alloc", "stateful").raw("prog", prog_json(p, false)).raw("calls", prog_json(p, true)).boolean("tsan", true).done())
                           .done());
     };
-    for (const char* storage : {"direct", "ref", "any"})
+    for (const char* storage : {"direct", "ref", "any", "direct-empty"})
     {
         auto br = run_batch(storage, progs, iters);
         runs += br.runs;
@@ -1319,7 +1712,7 @@ int main(int argc, char** argv)
     extra.num("free_runs", runs).num("tsan_reports", reports).num("programs_with_report", nviol).num("hung_batches", hangs);
     jobj out;
     out.num("evaluations", runs)
-        .num("distinct_nontrivial", (long long)progs.size() * 3)
+        .num("distinct_nontrivial", (long long)progs.size() * 4)
         .str("rule", "side run (sampling): every 2x2 program free-running with std::mutex under ThreadSanitizer")
         .raw("samples", samples.done())
         .boolean("exhaustive", false)
